@@ -287,3 +287,10 @@ def c04_7(ctx, r):
     from .c08 import c08_5
 
     c08_5(ctx, r)
+
+
+@rule(P, "C04.8", "T8", "the submitter's job table carries each job's cancel flag and blockers from the configuration", min_obligations=6)
+def c04_8(ctx, r):
+    from .c09 import c09_7
+
+    c09_7(ctx, r)
